@@ -112,6 +112,24 @@ func (propC12) Gen(r *Rng, idx int, tier string) *Scenario {
 			}
 		}
 	}
+	if tr := r.Fork("tags"); tr.Chance(1, 3) {
+		// tags that mean something on the command line or in the help only: the INI
+		// text and its reading are the same with them
+		for _, oi := range optInfos(sc.Decl) {
+			o := oi.O
+			if (o.Kind == "string" || o.Kind == "[]string" || o.Kind == "map[string]string") && tr.Chance(1, 3) {
+				o.NoUnquote = true
+			}
+			if len(o.Default) > 0 && tr.Chance(1, 2) {
+				o.DefaultMask = tr.Pick([]string{"-", "*****", "secret token"})
+			}
+		}
+	}
+	if gr := r.Fork("renamed"); gr.Chance(1, 6) && len(sc.Decl.Groups) > 0 {
+		// a top-level group that got its name only after it was added
+		g := sc.Decl.Groups[gr.Intn(len(sc.Decl.Groups))]
+		g.CreatedAs = "Old " + g.Name
+	}
 	sc.World = WorldSpec{Cols: 80, Now: 1700000000}
 	p := sc.C12
 	pr := r.Fork("pre")
